@@ -30,8 +30,8 @@ ASSUMPTIONS = [
     "sympy evaluates Polar's returned expression correctly at integer n and rational parameter values",
     "n ranges over 0..N only (N=6..8 discrete, 3..4 continuous); all-n reach for an instance comes from chaining with C03/C04",
 ]
-TIMEOUT = {"quick": 40, "thorough": 120}
-DEADLINE = {"quick": 100, "thorough": 1500}
+TIMEOUT = {"quick": 25, "thorough": 120}
+DEADLINE = {"quick": 70, "thorough": 1500}
 MIN_DECIDING = {"quick": 40, "thorough": 300}
 NCASES = {"quick": 150, "thorough": 2600}
 
